@@ -102,8 +102,8 @@ func estimate(spatial bool, ts [][]int64, E, outV int64) int64 {
 	return sum
 }
 
-const guardCap = 1 << 15 // the invoker refuses larger requests
-const genCap = 6000      // the generators stay below this
+const guardCap = 4096 // the invoker refuses larger requests
+const genCap = 3000   // the generators stay below this
 
 func call(spatial bool, tiles w.Val, E, O, outV int64) w.Val {
 	var raw [][]int64
@@ -502,6 +502,17 @@ func genRequest(g *Gen, spatial bool) (params, []tile, []string) {
 	case c < 86: // a tile whose covering range straddles (or just touches) the top / bottom of the target index range, anywhere in the request
 		mode = "req:straddle"
 		b, _ := genTile(g, p, 4)
+		if p.E > 0 && g.Chance(0.8) { // key cells taller than a metre: only those can straddle (not just touch) the end of the range
+			d := 1 + g.Int63n(6)
+			if d > p.E {
+				d = p.E
+			}
+			b[3] = p.E - d
+			if spatial {
+				b[0] = hzoomFor(g, p, 7)
+				b[1], b[2] = g.HIndex(b[0]), g.HIndex(b[0])
+			}
+		}
 		kz := b[3]
 		b[4] = g.Pick(pow2(kz)-1, pow2(kz)-1, 0, 0, g.HIndex(kz), pow2(kz)/2)
 		hgt := int64(1)
